@@ -689,6 +689,11 @@ func (w *cliWorld) handlerFor(inst *txInst, idx int) stun.Handler {
 			// (not Close: a handler running on the collector's goroutine that calls Close waits for itself, by design)
 			_ = w.client.Indicate(cliRequest(9, 20))
 			_ = w.client.Start(cliRequest(8, 20), func(stun.Event) {})
+			if errors.Is(e.Error, stun.ErrClientClosed) || errors.Is(e.Error, stun.ErrAgentClosed) {
+				// told that the client is closing (these events come from Close itself): a handler that "makes sure" and
+				// closes the client gets ErrClientClosed
+				_ = w.client.Close()
+			}
 		}
 		sched.Point("handler-return", nil)
 		inst.HandlerDone = len(w.log)
